@@ -8,6 +8,7 @@ import (
 	"sort"
 	"strings"
 	"sync"
+	"syscall"
 	"time"
 )
 
@@ -162,7 +163,24 @@ func shrink(cs Case, pred func(Case) bool, budget time.Duration) Case {
 	}
 }
 
+var realStdout *os.File
+
+// silenceStdout points fd 1 at /dev/null: the repository's packages log to os.Stdout
+// (captured in their init functions) and the stdout transporter prints records there.
+func silenceStdout() {
+	fd, err := syscall.Dup(1)
+	if err != nil {
+		realStdout = os.Stdout
+		return
+	}
+	realStdout = os.NewFile(uintptr(fd), "stdout")
+	if dn, err := os.OpenFile("/dev/null", os.O_WRONLY, 0); err == nil {
+		syscall.Dup2(int(dn.Fd()), 1)
+	}
+}
+
 func main() {
+	silenceStdout()
 	comp := flag.String("component", "", "component to check")
 	seed := flag.Uint64("seed", 1, "VERIF_SEED")
 	tier := flag.String("tier", "quick", "quick|thorough")
@@ -181,7 +199,7 @@ func main() {
 			names = append(names, n)
 		}
 		sort.Strings(names)
-		fmt.Println(strings.Join(names, "\n"))
+		fmt.Fprintln(realStdout, strings.Join(names, "\n"))
 		return
 	}
 	c, ok := components[*comp]
@@ -341,7 +359,7 @@ func main() {
 	if *outPath != "" {
 		os.WriteFile(*outPath, b, 0o644)
 	} else {
-		os.Stdout.Write(b)
+		realStdout.Write(b)
 	}
 	fmt.Fprintf(os.Stderr, "%s: cases=%d ops=%d distinct=%d mismatches=%d monitor_hits=%d bad_ops=%d wall=%.1fs\n",
 		c.Name, res.Cases, res.Ops, res.Distinct, len(res.Mismatches), len(res.MonitorHits), res.BadOps, res.WallS)
